@@ -20,33 +20,6 @@ impl NonZeroU128 {
     { unimplemented!() }
 }
 
-/// num_traits::ToPrimitive / NumCast restricted to the integer types used: `<X as NumCast>::from(n)` is
-/// Some(n) iff n is representable in X.
-pub trait ToPrimitive: Sized { spec fn as_int(self) -> int; }
-impl ToPrimitive for u128 { open spec fn as_int(self) -> int { self as int } }
-impl ToPrimitive for i128 { open spec fn as_int(self) -> int { self as int } }
-impl ToPrimitive for u64 { open spec fn as_int(self) -> int { self as int } }
-impl ToPrimitive for i64 { open spec fn as_int(self) -> int { self as int } }
-pub trait NumCast: Sized {
-    spec fn fits(v: int) -> bool;
-    spec fn val(self) -> int;
-    fn from<N: ToPrimitive>(n: N) -> (r: Option<Self>)
-        ensures Self::fits(n.as_int()) ==> r is Some && r->Some_0.val() == n.as_int(),
-                !Self::fits(n.as_int()) ==> r is None;
-}
-impl NumCast for i128 {
-    open spec fn fits(v: int) -> bool { i128::MIN <= v <= i128::MAX }
-    open spec fn val(self) -> int { self as int }
-    #[verifier::external_body]
-    fn from<N: ToPrimitive>(n: N) -> (r: Option<Self>) { unimplemented!() }
-}
-impl NumCast for u128 {
-    open spec fn fits(v: int) -> bool { 0 <= v <= u128::MAX }
-    open spec fn val(self) -> int { self as int }
-    #[verifier::external_body]
-    fn from<N: ToPrimitive>(n: N) -> (r: Option<Self>) { unimplemented!() }
-}
-
 /// crate::TemporalUnwrap for Option<T>: debug builds panic on None (debug_assert!), release builds return
 /// the internal-assertion error. Both are forbidden by C03, hence the precondition.
 pub trait TemporalUnwrap: Sized {
@@ -63,4 +36,37 @@ impl<T> TemporalUnwrap for Option<T> {
     open spec fn unwrap_val(self) -> T { self->Some_0 }
     #[verifier::external_body]
     fn temporal_unwrap(self) -> (r: TemporalResult<T>) { unimplemented!() }
+}
+
+/// NonZeroU32 stand-in (RoundingIncrement wraps it)
+#[derive(Clone, Copy, PartialEq, Eq, Structural)]
+pub struct NonZeroU32 { pub v: u32 }
+impl NonZeroU32 {
+    #[verifier::external_body]
+    pub const fn get(self) -> (r: u32)
+        ensures r == self.v,
+    { unimplemented!() }
+}
+impl vstd::std_specs::convert::FromSpecImpl<NonZeroU32> for NonZeroU128 {
+    open spec fn obeys_from_spec() -> bool { true }
+    open spec fn from_spec(v: NonZeroU32) -> Self { NonZeroU128 { v: v.v as u128 } }
+}
+impl From<NonZeroU32> for NonZeroU128 {
+    #[verifier::external_body]
+    fn from(v: NonZeroU32) -> Self { unimplemented!() }
+}
+
+/// num_traits::FromPrimitive::from_i128 for i64: Some iff representable
+pub trait FromPrimitive: Sized {
+    spec fn fp_fits(v: int) -> bool;
+    spec fn fp_val(self) -> int;
+    fn from_i128(n: i128) -> (r: Option<Self>)
+        ensures Self::fp_fits(n as int) ==> r is Some && r->Some_0.fp_val() == n,
+                !Self::fp_fits(n as int) ==> r is None;
+}
+impl FromPrimitive for i64 {
+    open spec fn fp_fits(v: int) -> bool { i64::MIN <= v <= i64::MAX }
+    open spec fn fp_val(self) -> int { self as int }
+    #[verifier::external_body]
+    fn from_i128(n: i128) -> (r: Option<Self>) { unimplemented!() }
 }
